@@ -273,6 +273,14 @@ def apply(self, callee, args, kwargs, st, node):
     if isinstance(callee, BoundMethod):
         yield from self.call_method(callee.recv, callee.name, args, kwargs, st, node)
         return
+    if isinstance(callee, FuncRef) and callee.qual in self.reg.named_tuples:
+        t = self.reg.named_tuples[callee.qual]
+        vals = list(args) + [kwargs[n] for n in (t.names or [])[len(args):] if n in kwargs]
+        if len(vals) != len(t.elts):
+            raise Untranslatable(f"{callee.qual}(...) with defaults")
+        zs = [self.coerce(self.guess_tuple(v, st), et, st).z for v, et in zip(vals, t.elts)]
+        yield Val(t, t.mk(*zs)), st
+        return
     if isinstance(callee, FuncRef):
         c = self.reg.contracts.get(callee.qual) or self.reg.contracts.get(callee.qual.split(".")[-1]) \
             if "." in callee.qual and callee.qual.split(".")[0] not in self.reg.classes else self.reg.contracts.get(callee.qual)
@@ -586,9 +594,8 @@ def call_builtin(self, name, args, kwargs, st, node):
         yield a[0], st
         return
     if name in ("time.time", "time"):
-        t = fresh("clock", z3.RealSort())
-        self.assume_log("time.time() returns an arbitrary real; successive readings unconstrained")
-        yield Val(ty.Opaque("Real"), t) if False else PyConst(("clock", t)), st
+        self.assume_log("time.time() returns an arbitrary value; readings are untracked havocs")
+        yield Unknown("clock"), st
         return
     if name == "print" or name.startswith("logger."):
         yield none_val(), st
@@ -965,8 +972,34 @@ def iter_to_val(self, v, t, st):
     return v
 
 
+def pick_variant(self, c, args, kwargs, st):
+    """Choose the type case of a contract with variants from the static types of the arguments."""
+    if not c.variants:
+        return c
+    fnode, _, _ = self.src.find(c)
+    names = [x.arg for x in fnode.args.posonlyargs + fnode.args.args]
+    given = dict(zip(names, args))
+    given.update(kwargs)
+    for i, v in enumerate(c.variants):
+        ok = True
+        for n, t in v.get("params", {}).items():
+            a = given.get(n)
+            if a is None:
+                continue
+            a = self.guess_tuple(a, st) if isinstance(a, PyTuple) else a
+            at = a.t if isinstance(a, Val) else None
+            if at is None or not (at == t or (isinstance(t, Opt) and (at == t.elt or at == NoneT))
+                                  or (isinstance(at, Opt) and at.elt == t) or (t == Int and at == Bool)):
+                ok = False
+                break
+        if ok:
+            return self.reg.variant(c, i)
+    raise Untranslatable(f"no variant of {c.qual} matches the argument types")
+
+
 def call_contract(self, c, args, kwargs, st, node):
     """Replace a call by the callee's contract: assert requires, havoc modifies, assume ensures."""
+    c = self.pick_variant(c, args, kwargs, st)
     if c.inline:
         yield from self.call_inline(c, args, kwargs, st, node)
         return
